@@ -1,2 +1,75 @@
-(** C02 — ordered super-reconciliation (placeholder statements are added as proofs land). *)
-From SR Require Import Model.Spfs.
+(** C02 — ordered super-reconciliation returns a minimum-cost labelled reconciliation.
+    Statements only; proofs are [exact <lemma of Proofs/SpfsProofs.v, Proofs/SpfsFinal.v>].
+
+    [spfs S c rp extended orders O]: model of [_spfs] (extended = true: ESPFS, false: base SPFS)
+    run on the root orderings [orders]; [None] would mean that decoding or the evaluator raised.
+    [valid_ordered S ord O lt]: lt has the shape of O, leaves on their species with exactly their
+    input syntenies, species of S only, no invalid event, every child synteny a subsequence of its
+    parent's, root synteny = ord.  [cost_of c O lt]: the evaluator's total cost (C06).
+    [coherent_ord c]: spe + 2*sloss <= dup + 2*floss, 0 <= floss, 0 <= sloss (F-COHERENCE). *)
+From Coq Require Import List Bool ZArith NArith.
+From SR Require Import Base.PathB Base.Ext Model.Subseq Model.Entry Model.Recon Model.LcaRec Model.Thl Model.Spfs
+  Proofs.SubseqProofs Proofs.PathFacts Proofs.ReconProofs Proofs.ThlProofs Proofs.SpfsProofs Proofs.SpfsFinal.
+Import ListNotations.
+Local Open Scope Z_scope.
+
+(* the solver never fails on well-formed orders (duplicate-free, every leaf synteny a non-empty subsequence) *)
+Theorem C02_spfs_returns : forall S c rp extended orders O, nn (c_hgt c) -> orders_ok S O orders ->
+  exists e, spfs S c rp extended orders O = Some e.
+Proof. exact spfs_returns. Qed.
+
+(* extended solver: exactly the minimum over the root orders, all species mappings and all labellings *)
+Theorem C02_ext_spfs_optimum : forall S c orders O e, nn (c_hgt c) -> coherent_ord c -> orders_ok S O orders ->
+  spfs S c RALL true orders O = Some e ->
+  forall lt, In lt (tags e) <->
+    ((exists ord, In ord orders /\ valid_ordered S ord O lt) /\
+     forall lt' ord', In ord' orders -> valid_ordered S ord' O lt' -> ele (cost_of c O lt) (cost_of c O lt')).
+Proof. exact ext_spfs_optimum. Qed.
+
+(* base solver: the minimum among the solutions that use the LCA species mapping *)
+Theorem C02_base_spfs_optimum : forall S c orders O e, nn (c_hgt c) -> coherent_ord c -> orders_ok S O orders ->
+  spfs S c RALL false orders O = Some e ->
+  forall lt, In lt (tags e) <->
+    ((exists ord, In ord orders /\ valid_ordered S ord O lt /\ forget lt = lca_rec O) /\
+     forall lt' ord', In ord' orders -> valid_ordered S ord' O lt' -> forget lt' = lca_rec O ->
+       ele (cost_of c O lt) (cost_of c O lt')).
+Proof. exact base_spfs_optimum. Qed.
+
+(* empty exactly when no root order is compatible with all leaves (no hypothesis on the unit costs) *)
+Theorem C02_spfs_empty_iff : forall S c rp extended orders O e, nn (c_hgt c) -> orders_ok S O orders -> rp <> RNONE ->
+  (forall ord, In ord orders -> root_fits O ord) ->
+  spfs S c rp extended orders O = Some e -> (tags e = [] <-> orders = []).
+Proof. exact spfs_empty_iff. Qed.
+
+(* the root orders the solver enumerates ([_make_prec_graph] + [toposort_all]) are exactly the compatible ones,
+   and on them the solver returns exactly the optimal solutions, nothing when there is none *)
+Theorem C02_root_orders_spec : forall O orders, Spfs.root_orders O = Some orders ->
+  forall ord, In ord orders <-> compatible_order O ord.
+Proof. exact root_orders_spec. Qed.
+
+Theorem C02_spfs_root_orders_optimum : forall S c extended O, nn (c_hgt c) -> coherent_ord c -> leaves_wf S O ->
+  exists orders e, Spfs.root_orders O = Some orders /\ spfs S c RALL extended orders O = Some e /\
+    (forall lt, In lt (tags e) <-> optimal_sol S c extended orders O lt) /\
+    (tags e = [] <-> forall ord, ~ compatible_order O ord).
+Proof. exact spfs_root_orders_optimum. Qed.
+
+(* the table holds the clean recurrence; inside the region the optimiser's charge is the evaluator's *)
+Theorem C02_table_value : forall S c rp extended ord, nn (c_hgt c) -> rp <> RNONE ->
+  forall o, leaves_ord S ord o -> forall is_root k, val (sread (spfs_table S c rp extended ord is_root o) k) = Sval c S extended ord is_root o k.
+Proof. exact stable_value. Qed.
+
+Theorem C02_ocost_ecost_ord : forall c s m kl kr, coherent_ord c ->
+  mask_ok (snd kl) m = true -> mask_ok (snd kr) m = true -> ocost_ord c s m kl kr = ecost_ord c s m kl kr.
+Proof. exact ocost_ecost_ord. Qed.
+
+Print Assumptions C02_spfs_returns.
+Print Assumptions C02_ext_spfs_optimum.
+Print Assumptions C02_base_spfs_optimum.
+Print Assumptions C02_spfs_empty_iff.
+Print Assumptions C02_root_orders_spec.
+Print Assumptions C02_spfs_root_orders_optimum.
+Print Assumptions C02_table_value.
+Print Assumptions C02_ocost_ecost_ord.
+
+(* non-vacuity *)
+Example C02_example := spfs_example.
